@@ -37,7 +37,7 @@ type cfg struct {
 	backpressure bool
 	updatesOnly  bool
 	mask         bool
-	writers      [][]string // per writer thread: ops  set:N | upd:ID:N | del:ID | add:ID:N
+	writers      [][]string // per writer thread: ops  set:N | mset:N | upd:ID:N | mup:ID:N | ups:ID:N | del:ID  (m..: with an update mask)
 	// leaver: another subscriber is already there and cancels at some moment; the bus tidies it away during a
 	// publication, which must not cost the observed subscriber its registration
 	leaver bool
@@ -177,6 +177,14 @@ func body(c cfg) func() {
 						var n int
 						fmt.Sscan(f[1], &n)
 						_, err = val.Set(msg(n))
+					case "mset": // a masked write: what is stored (number N, the text as it was) is not the message passed in
+						var n int
+						fmt.Sscan(f[1], &n)
+						_, err = val.Set(msg(n), resource.WithUpdatePaths("default_int32"))
+					case "mup":
+						var n int
+						fmt.Sscan(f[2], &n)
+						_, err = col.Update(f[1], msg(n), resource.WithUpdatePaths("default_int32"))
 					case "upd": // plain update: NotFound once the item is gone (never re-creates)
 						var n int
 						fmt.Sscan(f[2], &n)
@@ -359,19 +367,21 @@ func main() {
 					// them), then two concurrent writers
 					switch kind {
 					case "value":
-						ws = [][][]string{{{"set:1", "set:2"}}, {{"set:1"}, {"set:2"}}}
+						ws = [][][]string{{{"set:1", "set:2"}}, {{"set:1"}, {"set:2"}}, {{"mset:1", "mset:2"}}, {{"mset:1"}, {"set:2"}}}
 						if !mask {
 							ws = append(ws, [][]string{{"set:1", "set:3"}, {"set:2"}})
 						}
 					case "coll":
 						ws = [][][]string{{{"upd:a:1", "del:a"}}, {{"ups:b:1", "upd:a:2"}}, {{"ups:b:1", "del:b"}}, {{"upd:a:1"}, {"upd:a:2"}}, {{"upd:a:1"}, {"del:a"}},
-							{{"del:a"}, {"ups:a:2"}}} // a delete racing the re-creation of the same item
+							{{"del:a"}, {"ups:a:2"}}, // a delete racing the re-creation of the same item
+							{{"mup:a:1", "mup:a:2"}}, {{"mup:a:1"}, {"upd:a:2"}}} // masked updates: the event carries the item as stored
 						if !mask {
 							ws = append(ws, [][]string{{"ups:b:1"}, {"upd:a:2", "del:b"}})
 						}
 					case "id":
 						ws = [][][]string{{{"upd:a:1", "upd:a:2"}}, {{"upd:a:1", "del:a"}}, {{"upd:a:1"}, {"upd:a:2"}}, {{"upd:a:1"}, {"del:a"}},
-							{{"del:a", "ups:a:2"}}, {{"upd:a:1", "del:a", "ups:a:2"}}} // removed and created again
+							{{"del:a", "ups:a:2"}}, {{"upd:a:1", "del:a", "ups:a:2"}}, // removed and created again
+							{{"mup:a:1", "mup:a:2"}}, {{"upd:a:1"}, {"mup:a:2"}}}
 					}
 					if uo && !mask && kind != "id" {
 						// one single-writer program once more, next to a subscriber that leaves
